@@ -28,8 +28,10 @@ def evaluate(root):
 def main():
     wt = tempfile.mkdtemp(prefix="evalwt_")
     subprocess.check_call(["git", "-C", "/repo", "worktree", "add", "--detach", wt, "HEAD", "-q"])
+    write = "--write-verdict" in sys.argv
     try:
-        for d in sys.argv[1:]:
+        for d in [a for a in sys.argv[1:] if not a.startswith("--")]:
+            record = {}
             try:
                 target = json.load(open(os.path.join(d, "meta.json"))).get("property", "?")
             except Exception:
@@ -46,10 +48,23 @@ def main():
                 hits = {p: r[1] for p, r in res.items() if r[0] == 1}
                 errs = {p: (r[2] or "")[:100] for p, r in res.items() if r[0] == 2}
                 if which == "clean":
-                    verdict = "SILENT" if not hits and not errs else "FALSE-ALARM"
+                    verdict = "SILENT" if not hits and not errs else ("FALSE-ALARM" if hits else "FALSE-ALARM(undecided: exit 2 only)")
                 else:
                     verdict = "CAUGHT" if res.get(target, (0,))[0] == 1 else ("ERROR" if target in errs else "MISSED")
                 print(f"{d} {which:6s}: {verdict} (target {target}) | flagged {hits} | errors {errs}"[:420])
+                record[which + "_half"] = {"verdict": verdict, "violations": hits, "undecided": errs}
+            if write and record:
+                vp = os.path.join(d, "verdict.json")
+                old = {}
+                if os.path.exists(vp):
+                    try:
+                        old = json.load(open(vp))
+                    except Exception:
+                        old = {}
+                out = {"pair": os.path.basename(os.path.normpath(d)), **record}
+                if old.get("note"):
+                    out["note"] = old["note"]
+                json.dump(out, open(vp, "w"), indent=1)
     finally:
         subprocess.call(["git", "-C", "/repo", "worktree", "remove", "--force", wt])
 
